@@ -222,8 +222,7 @@ pub trait SemanticString<const CAPACITY: usize>:
     fn insert_bytes(&mut self, idx: usize, bytes: &[u8]) -> Result<(), SemanticStringError> {
         let msg = "Unable to insert byte string";
         fail!(from self, when unsafe { self.get_mut_string().insert_bytes(idx, bytes) },
-                with SemanticStringError::ExceedsMaximumLength,
-                    "{} \"{}\" since it would exceed the maximum allowed length of {}.",
+                    "{} \"{}\" since it would exceed the maximum allowed length of {} or contains invalid characters.",
                         msg, as_escaped_string(bytes), CAPACITY);
 
         if Self::is_invalid_content(self.as_bytes()) {
